@@ -113,7 +113,8 @@ JudgeCompile(r) ==
     ELSE IF Len(prep.scans) # 1 THEN [kinds |-> <<"no-scan-call">>, info |-> "scans"]
     ELSE IF SemUnspecified(t) THEN [kinds |-> <<>>, info |-> "unspecified semantics"]
     ELSE
-      LET static == (IF framed # NeedsFramed(t) THEN <<"mode-mismatch">> ELSE <<>>)
+      LET static == ScopeKinds(prep.data[2]) \o ResourceKinds(prep, WithImplicitPrint(t))
+                    \o (IF framed # NeedsFramed(t) THEN <<"mode-mismatch">> ELSE <<>>)
                     \o (IF framed THEN IoMapKinds(t, iomap) ELSE <<>>)
                     \o ScanArgKinds(prep, r.o, c.renders[1].path)
           now0 == c.t0
@@ -124,7 +125,38 @@ JudgeCompile(r) ==
           d == IF d1.kinds = <<>> THEN d1 ELSE d0
       IN [kinds |-> static \o d.kinds, info |-> "files", nfiles |-> Len(files), file |-> d.file]
 
+\* ---- C04: the same program with a benign marker in place of the user string ----
+RECURSIVE ReplaceAll(_, _, _)
+ReplaceAll(s, m, u) ==
+  IF Len(s) < Len(m) THEN s
+  ELSE IF SubSeq(s, 1, Len(m)) = m THEN u \o ReplaceAll(SubSeq(s, Len(m) + 1, Len(s)), m, u)
+  ELSE <<s[1]>> \o ReplaceAll(Tail(s), m, u)
+TildeDoubled(u) == Flatten([i \in 1..Len(u) |-> IF u[i] = cTILDE THEN <<cTILDE, cTILDE>> ELSE <<u[i]>>])
+SkeletonKinds(r) ==
+  IF r.c.st # "ok" \/ r.c0.st # "ok" THEN (IF r.c.st = r.c0.st THEN <<>> ELSE <<"hostile-string-changes-outcome">>)
+  ELSE LET a == ReadAll(r.c.renders[1].text)
+           b == ReadAll(r.c0.renders[1].text)
+       IN IF ~a.ok THEN <<"malformed-program">>
+          ELSE IF ~b.ok THEN <<"benign-program-malformed">>
+          ELSE LET ska == [i \in 1..Len(a.data) |-> Skeleton(a.data[i])]
+                   skb == [i \in 1..Len(b.data) |-> Skeleton(b.data[i])]
+                   sa == Flatten([i \in 1..Len(a.data) |-> Strings(a.data[i])])
+                   sb == Flatten([i \in 1..Len(b.data) |-> Strings(b.data[i])])
+                   inTemplate == r.slot \in {"fmt-literal", "fmt-literal-mid", "fmt-no-newline"}
+                   u == IF inTemplate THEN TildeDoubled(r.u) ELSE r.u
+               IN (IF Eager(ska) # Eager(skb) THEN <<"skeleton-differs">> ELSE <<>>)
+                  \o (IF Len(sa) # Len(sb) THEN <<"string-count-differs">>
+                      ELSE IF \A i \in 1..Len(sb) : sa[i] = ReplaceAll(sb[i], r.marker, u) THEN <<>>
+                      ELSE <<"string-not-verbatim">>)
+                  \* in framed mode a file name lives in the destination table, not in the program
+                  \o (IF r.slot \in {"fprint-file", "fprintf-file"} \/ (\E i \in 1..Len(sb) : Contains(sb[i], r.marker))
+                      THEN <<>> ELSE <<"marker-not-in-a-string">>)
+
+JudgeAll(r) ==
+  LET j == JudgeCompile(r) IN
+  IF "c0" \in DOMAIN r THEN [j EXCEPT !.kinds = j.kinds \o SkeletonKinds(r)] ELSE j
+
 Init == vIdx \in 1..Stride
 Next == vIdx + Stride <= NRec /\ vIdx' = vIdx + Stride
-Emit == vIdx <= NRec => LET j == JudgeCompile(Rec[vIdx]) IN PrintT(ToJson([idx |-> vIdx] @@ j))
+Emit == vIdx <= NRec => LET j == JudgeAll(Rec[vIdx]) IN PrintT(ToJson([idx |-> vIdx] @@ j))
 =============================================================================
